@@ -35,7 +35,9 @@ def multiplier():
 
 
 def cuda_specs():
-    return ZeroOrMore(OrderedChoice([mem_spec]), sep=",")
+    # (an empty match would make `cuda()` vanish from the request: arpeggio
+    # takes an empty result for "no match" but goes on from after it)
+    return OneOrMore(OrderedChoice([mem_spec]), sep=",")
 
 
 def cuda():
@@ -43,7 +45,7 @@ def cuda():
 
 
 def cpu_specs():
-    return ZeroOrMore(OrderedChoice([mem_spec, cores_spec]), sep=",")
+    return OneOrMore(OrderedChoice([mem_spec, cores_spec]), sep=",")
 
 
 def cpu():
